@@ -952,7 +952,9 @@ class Model:
                     cast(dict, rxn.stoichiometry)[name] = value
                 else:
                     for surrogate in self._surrogates.values():
-                        if stoich := surrogate.stoichiometries.get(rxn_name):
+                        if (
+                            stoich := surrogate.stoichiometries.get(rxn_name)
+                        ) is not None:
                             target = True
                             stoich[name] = value
                 if not target:
